@@ -1071,6 +1071,8 @@ func (c *Case) execute() (o Obs, hang bool) {
 		items = append(items, keyed{key: o.Resumes[i].Seq * K, rs: &o.Resumes[i]})
 	}
 	sort.Slice(h.replays, func(i, j int) bool { return h.replays[i].From < h.replays[j].From })
+	sort.SliceStable(items, func(i, j int) bool { return items[i].key < items[j].key })
+	observed := append([]keyed{}, items...)
 	fakes := map[*St]*St{}
 	for k, rp := range h.replays {
 		final := c.Runs + k
@@ -1081,8 +1083,8 @@ func (c *Case) execute() (o Obs, hang bool) {
 			}
 		}
 		n := int64(0)
-		for _, it := range items {
-			if it.key%K != 0 || it.key/K >= rp.CutSeq {
+		for _, it := range observed {
+			if it.key/K >= rp.CutSeq {
 				continue
 			}
 			switch {
@@ -1102,11 +1104,11 @@ func (c *Case) execute() (o Obs, hang bool) {
 				items = append(items, keyed{key: (markerSeq-1)*K + n, rs: &r2})
 			}
 		}
-		for _, it := range items {
-			if it.key%K == 0 && it.ev != nil && it.ev.Run == rp.Run {
+		for _, it := range observed {
+			if it.ev != nil && it.ev.Run == rp.Run {
 				it.ev.Run = final
 			}
-			if it.key%K == 0 && it.rs != nil && it.rs.Run == rp.Run {
+			if it.rs != nil && it.rs.Run == rp.Run {
 				it.rs.Run = final
 			}
 		}
